@@ -266,27 +266,80 @@ def _subst(n, env):
 
 
 def _rename_locals(stmts, suffix):
-    names = set()
-    for x in walk(stmts):
-        if x.get("k") == "pident":
-            names.add(x["name"])
-    names.discard("self")
-    if not names:
-        return stmts
-    mp = {n: n + suffix for n in names}
+    """Scope-aware alpha-renaming of the bindings introduced inside `stmts` (lets, loop / closure / match patterns): each gets `suffix`
+    appended, and exactly the mentions that refer to it are renamed - a mention that refers to something bound outside (a parameter that a
+    loop variable of the same name shadows only inside the loop) keeps its name."""
+    def pat_names(p, acc):
+        if isinstance(p, dict):
+            if p.get("k") == "pident":
+                acc.append(p["name"])
+            for v in p.values():
+                if isinstance(v, (dict, list)):
+                    pat_names(v, acc)
+        elif isinstance(p, list):
+            for x in p:
+                pat_names(x, acc)
+        return acc
 
-    def rec(n):
+    def ren_pat(p, env):
+        if isinstance(p, list):
+            return [ren_pat(x, env) for x in p]
+        if not isinstance(p, dict):
+            return p
+        out = {k: (ren_pat(v, env) if isinstance(v, (dict, list)) else v) for k, v in p.items()}
+        if out.get("k") == "pident" and out.get("name") in env:
+            out["name"] = env[out["name"]]
+        return out
+
+    def bind(p, env):
+        env2 = dict(env)
+        for n in pat_names(p, []):
+            if n != "self":
+                env2[n] = n + suffix
+        return env2
+
+    def expr(n, env):
         if isinstance(n, list):
-            return [rec(x) for x in n]
+            return [expr(x, env) for x in n]
         if not isinstance(n, dict):
             return n
-        out = {k: (rec(v) if isinstance(v, (dict, list)) else v) for k, v in n.items()}
-        if out.get("k") == "pident" and out.get("name") in mp:
-            out["name"] = mp[out["name"]]
-        if out.get("k") == "path" and out.get("p") in mp:
-            out["p"] = mp[out["p"]]
-        return out
-    return rec(stmts)
+        k = n.get("k")
+        if k == "path":
+            return dict(n, p=env[n["p"]]) if n.get("p") in env else n
+        if k == "block":
+            return block(n, env)
+        if k == "for":
+            e2 = bind(n["pat"], env)
+            return dict(n, iter=expr(n["iter"], env), pat=ren_pat(n["pat"], e2), body=expr(n["body"], e2))
+        if k == "closure":
+            e2 = env
+            for p in n.get("params", []):
+                e2 = bind(p, e2)
+            return dict(n, params=[ren_pat(p, e2) for p in n.get("params", [])], body=expr(n["body"], e2))
+        if k == "match":
+            arms = []
+            for a in n.get("arms", []):
+                e2 = bind(a["pat"], env)
+                arms.append(dict(a, pat=ren_pat(a["pat"], e2), body=expr(a["body"], e2), guard=expr(a.get("guard"), e2) if a.get("guard") else a.get("guard")))
+            return dict(n, e=expr(n["e"], env), arms=arms)
+        if k == "if" and isinstance(n.get("c"), dict) and n["c"].get("k") == "letcond":
+            e2 = bind(n["c"]["pat"], env)
+            c2 = dict(n["c"], e=expr(n["c"]["e"], env), pat=ren_pat(n["c"]["pat"], e2))
+            return dict(n, c=c2, then=expr(n["then"], e2), **({"else": expr(n["else"], env)} if n.get("else") is not None else {}))
+        return {kk: (expr(v, env) if isinstance(v, (dict, list)) else v) for kk, v in n.items()}
+
+    def block(b, env):
+        out = []
+        e = dict(env)
+        for s in b["stmts"]:
+            if isinstance(s, dict) and s.get("k") == "let":
+                init = expr(s.get("init"), e) if s.get("init") is not None else None
+                e = bind(s["pat"], e)
+                out.append(dict(s, init=init, pat=ren_pat(s["pat"], e)))
+            else:
+                out.append(expr(s, e))
+        return dict(b, stmts=out)
+    return block({"k": "block", "stmts": stmts}, {})["stmts"]
 
 
 def _pure_arith(a):
@@ -355,7 +408,7 @@ def inline_helpers(doc, log):
             return methods[(owner, call["name"])], call["args"]
         return None
 
-    def expand(call, owner, under_try):
+    def expand(call, owner, under_try, fn_tail=False):
         got = callee_of(call, owner)
         if got is None:
             return None
@@ -364,7 +417,7 @@ def inline_helpers(doc, log):
         if len(params) != len(args):
             return None
         rets = [x for x in walk(fn["body"]) if x.get("k") == "return"]
-        if rets and not under_try:
+        if rets and not (under_try or fn_tail):
             return None
         if any(not (isinstance(r.get("e"), dict) and r["e"].get("k") == "call" and r["e"]["f"].get("p", "").split("::")[-1] == "Err") for r in rets):
             return None
@@ -403,7 +456,7 @@ def inline_helpers(doc, log):
         log.append("helper `%s` inlined at line %s" % (fn["name"], call.get("ln")))
         return body, tail
 
-    def process_block(blk, owner, depth=0):
+    def process_block(blk, owner, depth=0, fn_body=False):
         if depth > 3:
             return
         out = []
@@ -427,7 +480,7 @@ def inline_helpers(doc, log):
                         changed = done = True
             if not done and k == "expr" and e is not None and s is blk["stmts"][-1]:
                 # the block's value is the helper's value
-                r = expand(e, owner, False)
+                r = expand(e, owner, False, fn_tail=fn_body)
                 if r is not None and r[1] is not None:
                     body, tail = r
                     out.extend(body)
@@ -463,7 +516,7 @@ def inline_helpers(doc, log):
                 out.append(s)
         if changed:
             blk["stmts"] = out
-            process_block(blk, owner, depth + 1)
+            process_block(blk, owner, depth + 1, fn_body)
 
     for path, owner, is_trait, fn in fns:
         if fn.get("body") is None:
@@ -479,7 +532,7 @@ def inline_helpers(doc, log):
                         arm["body"] = {"k": "block", "stmts": [{"k": "expr", "e": b, "ln": b.get("ln", 0)}], "ln": b.get("ln", 0)}
         for x in list(walk(fn["body"])):
             if x.get("k") == "block":
-                process_block(x, own)
+                process_block(x, own, 0, x is fn["body"])
     # a helper whose every call site was inlined no longer exists as a separate unit: drop its definition, so that rules which enumerate
     # functions (writers of a field, panic sites, ..) see its statements where they execute - inside the callers
     inlined = {l.split("`")[1] for l in log if l.startswith("helper `")}
@@ -684,9 +737,9 @@ def try_helpers(doc, log):
                 n[0] += 1
                 sfx = "__t%d" % n[0]
                 env = {p["name"]: (a, False, a) for p, a in zip(params, e["args"])}
-                lets = _subst(_rename_locals(copy.deepcopy(hb[:-1]), sfx), env)
-                # the renaming touched only the helper's own locals; its references to them inside the final `if` are renamed the same way
-                tail_if = _subst(_rename_locals([{"k": "expr", "e": copy.deepcopy(iff)}] + copy.deepcopy(hb[:-1]), sfx)[0]["e"], env)
+                ren = _rename_locals(copy.deepcopy(hb), sfx)      # lets first, the final `if` last: it sees the renamed lets
+                lets = _subst(ren[:-1], env)
+                tail_if = _subst(ren[-1]["e"], env)
                 v_ok2 = okerr(tail_if["else"] if neg else tail_if["then"], "Ok")
                 v_err2 = okerr(tail_if["then"] if neg else tail_if["else"], "Err")
                 then_stmts = []
